@@ -346,6 +346,9 @@ def find_row(site):
 
 
 # ------------------------------------------------------------------ loops (A9)
+ABORT_SIZE = 1 << 32          # a request above 4 GiB from a few input bytes: refused by the allocator on ordinary hosts
+
+
 def classify_loop(fx, body, L):
     S = schedule.get(fx)
     it = None
@@ -432,8 +435,24 @@ def run(ctx):
         reason = T.auto(s)
         rule = 'P1'
         if reason is None and s.kind.startswith('alloc:'):
-            reason = 'allocation sink: bounded/justified under C12 (abort-on-OOM is a C12 finding, cross-referenced)'
+            # memory *budget* is C12's property; what belongs here is the single request so large that the allocator refuses it
+            # and the process aborts (or `capacity overflow` panics): a size taken from a declared 32-bit field times the element size
+            import C12 as _c12
+            d_ = s.detail
+            st_ = d_.get('size_term')
+            rng_ = d_.get('size_range')
+            esz_ = d_.get('elem_size') or _c12.fallback_elem_size(fx, s) or 128
+            lenlike = st_ is not None and strip_casts(st_)[0] == 'call' and strip_casts(st_)[1] in _c12.LENLIKE
             rule = 'P5'
+            if d_.get('callee') in ('std::io::Read::read_to_end', 'std::io::Read::read_to_string') or lenlike:
+                reason = 'allocation grows with data already delivered / in memory (budget: C12)'
+            elif rng_ is not None and rng_[1] * esz_ <= ABORT_SIZE:
+                reason = 'single request of at most %d bytes (budget: C12)' % (rng_[1] * esz_)
+            else:
+                ctx.inst('P5', '%s %s' % (s.body.name.split('asefile::')[-1], s.kind), False,
+                         '%s at %s: a single request of up to %s x %d bytes is controlled by a declared file field: the allocator refuses it and the process aborts'
+                         % (s.kind, s.what[:80], rng_[1] if rng_ else 'unbounded', esz_), s.span, key=key, detail={'macros': s.macros[:3]})
+                continue
         if reason is None:
             reason = T.guard_index(s) or T.guard_index_enumerate(s) or T.guard_unwrap(s)
             rule = 'P2'
